@@ -47,6 +47,17 @@ def tree_history(rng, tier):
                 w.random_step()
         elif q < 0.30:
             w.emit('id_forceid')
+        elif q < 0.36:
+            # a feature like one the tag has already (same array, same link type): a NEW feature, the old one keeps its id
+            t = w.pick(['T', 'M'])
+            if t:
+                fs = [f for f in w.alive('R', parent=t.slot) if getattr(f, 'data', None) is not None and f.data.alive]
+                a = rng.choice(fs).data if fs and rng.random() < 0.7 else w.pick('A', block=t.block)
+                if a:
+                    lt = rng.choice(['tagged', 'untagged', 'indexed'])
+                    for _ in range(rng.choice([1, 2])):
+                        w.emit('mk %s R %s %s %s %s %s' % (w.fresh(), t.slot, S('x'), S('x'), a.slot, lt))
+                        w.emit('id_all')
         elif q < 0.38:
             mode = rng.choice(['rw', 'rw', 'ro'])
             w.emit('fdrop'); w.emit('fopen %s auto' % mode)
@@ -63,6 +74,7 @@ def tree_history(rng, tier):
 def cases(tier, seed, rng):
     from vlib.runner import Case
     out = []
+    out.append(Case(['id_new_loc 3', 'id_new_loc 50', 'id_new 2'], 'gen:new-under-a-grouping-locale'))
     out.append(Case(['id_new 1', 'id_new 2', 'id_new 40', 'id_new %d' % (600 if tier == 'quick' else 20000), 'id_new 3'], 'gen:new'))
     for _ in range(12 if tier == 'quick' else 300):
         out.append(Case(tree_history(rng, tier), 'gen:tree'))
@@ -70,6 +82,8 @@ def cases(tier, seed, rng):
     for r in range(rounds):
         out.append(Case(['id_new 2', 'id_threads %d %d' % (rng.choice([2, 4, 8]), rng.choice([2000, 5000])), 'id_new 2'], 'gen:race-threads'))
         out.append(Case(['id_race exec 8 %d' % rng.choice([30, 100, 200])], 'gen:race-exec'))
+        # freshly started processes that cannot open a file while they draw their first id
+        out.append(Case(['id_race execs %d %d' % (rng.choice([3, 6]), rng.choice([10, 30]))], 'gen:race-exec-starved'))
         out.append(Case(['id_new 5', 'id_race fork %d %d' % (rng.choice([4, 8]), rng.choice([30, 100])), 'id_new 5'], 'gen:race-fork'))
         # a pre-fork worker pool: a freshly started process forks its workers BEFORE it has created an id itself
         out.append(Case(['id_race pool %d %d' % (rng.choice([3, 6]), rng.choice([30, 100]))], 'gen:race-pool'))
